@@ -14,7 +14,7 @@ from mc import boundx
 from mc import c15_common as cc
 from mc import c15_ldap, c15_names, c15_rules, c15_trace, c15_zk
 
-BUDGET = {'quick': 60, 'thorough': 540}
+BUDGET = {'quick': 240, 'thorough': 540}
 
 # Nothing under test iterates a set/dict of strings in hash order in a way
 # that can reach an encoding: json.dumps(sort_keys) / sorted() / insertion
